@@ -278,7 +278,9 @@ SetChildRes(nd, n, c, t, v, a) ==
 \* The application's event callback may call back into the gateway.  Two modelled reactions:
 \*   kind "fw"  - update_fw(node, f) for the node whose PRESENTATION is being announced (type and version alone, no image);
 \*   kind "set" - set_child_value(node, child, t, v, ack=a) for the node and child whose SET message is being announced (an
-\*                application answering a report with a command: a thermostat pushing its set point back, a scene controller).
+\*                application answering a report with a command: a thermostat pushing its set point back, a scene controller),
+\*                or for the child whose PRESENTATION is being announced (an application initialising whatever shows up; for a
+\*                sleeping node that call is refused: the new child has no desired-value slot before the next wake-up).
 \* The event is raised after the handler's own state changes and nothing of the handler that touches the tree follows it, so
 \* the reaction applies to the handler's result (routing the handler's reply only appends to a hold queue and does not look at
 \* what the reaction changes: the two commute).  A command the reaction hands to add_job leaves BEFORE the handler's reply
@@ -290,11 +292,13 @@ React(r, l, rx) ==
         ota |-> [r.ota EXCEPT !.sess = [n \in DOMAIN r.ota.sess \cup {rx.n} |->
                                           IF n = rx.n THEN [st |-> "requested", fw |-> rx.f] ELSE r.ota.sess[n]]],
         em |-> <<>>]
-  ELSE IF rx.on /\ rx.kind = "set" /\ r.cbs # <<>> /\ l.wf /\ l.h.cmd = SET
+  ELSE IF rx.on /\ rx.kind = "set" /\ r.cbs # <<>> /\ l.wf /\ (l.h.cmd = SET \/ (l.h.cmd = PRES /\ l.h.c # SYSCHILD))
   THEN LET s == SetChildRes(r.nd, l.h.n, l.h.c, rx.t, rx.v, rx.a) IN [nd |-> s.nd, ota |-> r.ota, em |-> s.em]
   ELSE [nd |-> r.nd, ota |-> r.ota, em |-> <<>>]
 \* what the reacting callback sees of its own set_child_value call
-ReactSetExc(nd, o, l, rx) == SetChildRes(HSet(nd, o, l).nd, l.h.n, l.h.c, rx.t, rx.v, rx.a).exc
+ReactSetExc(nd, o, l, rx) ==
+  LET h == IF l.h.cmd = SET THEN HSet(nd, o, l) ELSE HPresentation(nd, o, l)
+  IN SetChildRes(h.nd, l.h.n, l.h.c, rx.t, rx.v, rx.a).exc
 
 RecvAsyncR(l, ch, rx) ==
   /\ Flavour = "async"
